@@ -272,11 +272,12 @@ func (w *World) fold(o op, a, b *Term) *Term {
 
 // ---------- solver ----------
 type solver struct {
-	name string
-	cmd  *exec.Cmd
-	in   io.WriteCloser
-	out  *bufio.Reader
-	dead bool
+	name    string
+	cmd     *exec.Cmd
+	in      io.WriteCloser
+	out     *bufio.Reader
+	dead    bool
+	timeout int // per-query budget in ms (the solver's own -t is not always honoured by nlsat: a watchdog kills the process)
 }
 
 func solverArgv(which int, timeoutMs int) []string {
@@ -311,7 +312,7 @@ func newSolver(which, timeoutMs int) *solver {
 	if err := cmd.Start(); err != nil {
 		panic(Inconclusive{"cannot start solver " + argv[0] + ": " + err.Error()})
 	}
-	return &solver{name: argv[0], cmd: cmd, in: in, out: bufio.NewReader(outp)}
+	return &solver{name: argv[0], cmd: cmd, in: in, out: bufio.NewReader(outp), timeout: timeoutMs}
 }
 func (s *solver) close() {
 	s.in.Close()
@@ -329,10 +330,22 @@ func (s *solver) close() {
 func (s *solver) run(script string) string {
 	io.WriteString(s.in, "(reset)\n"+script+"\n(check-sat)\n(echo \"@@done\")\n")
 	verdict := ""
+	killed := false
+	var wd *time.Timer
+	if s.timeout > 0 {
+		wd = time.AfterFunc(time.Duration(s.timeout)*time.Millisecond+15*time.Second, func() {
+			killed = true
+			s.cmd.Process.Kill()
+		})
+		defer wd.Stop()
+	}
 	for {
 		line, err := s.out.ReadString('\n')
 		if err != nil {
 			s.dead = true
+			if killed {
+				return "timeout"
+			}
 			return "error: solver died: " + err.Error()
 		}
 		line = strings.TrimSpace(line)
